@@ -1,4 +1,5 @@
 import CbiVerif.Lemmas.Compilers
+import CbiVerif.Props.C12Regex  -- built (and re-checked against the regenerated table) together with this module
 import CbiVerif.Generated.Compilers
 /-!
 # C12 — compiler emulation: aliases, implicit options, modes and passes
@@ -89,7 +90,7 @@ theorem implicit_eq_explicit_resolved (cs : CompilerMap) (mt : Matches) (name : 
   rw [parseArgs_options (resolve cs name).compiler (resolve cs name).compiler rfl rfl rfl mt argv]
   rfl
 
-example : parseArgs { (fromToml {}) with options := ["-DA", "-I", "inc"] } [] ["-DB", "x.c"] =
+example : parseArgs { (fromToml {}) with options := ["-DA", "-I", "inc"] } {} ["-DB", "x.c"] =
     .ok ([⟨"default", ["B", "A"], ["inc"], []⟩], []) := by decide
 
 /-! ## passes and modes -/
@@ -339,21 +340,21 @@ theorem builtin_actions_supported :
 
 /-- `icpx -fsycl -fopenmp`: `icpx` resolves through its alias to `icx`; two configurations — the default pass
 with both modes, the default SYCL device pass with the pass's defines and its `sycl` mode -/
-example : emulate exMap [] "icpx" ["-fsycl", "-fopenmp", "-DX", "a.cpp"] =
+example : emulate exMap {} "icpx" ["-fsycl", "-fopenmp", "-DX", "a.cpp"] =
     .ok ([⟨"sycl-spir64", ["X", "__SYCL_DEVICE_ONLY__", "__SPIR__", "__SPIRV__", "SYCL_LANGUAGE_VERSION"], [], []⟩,
           ⟨"default", ["X", "SYCL_LANGUAGE_VERSION", "_OPENMP"], [], []⟩], []) := by decide
 
 /-- `-fsycl-targets=` replaces the default device pass by the listed ones (store_split with format) -/
-example : (emulate exMap [] "icx" ["-fsycl-targets=spir64_gen,nvptx64-nvidia-cuda", "a.cpp"]).toOption.map
+example : (emulate exMap {} "icx" ["-fsycl-targets=spir64_gen,nvptx64-nvidia-cuda", "a.cpp"]).toOption.map
       (fun r => r.1.map (·.passName)) = some ["sycl-spir64_gen", "sycl-nvptx64-nvidia-cuda", "default"] := by decide
 
 /-- `nvcc`: implicit `-D__NVCC__ -D__CUDACC__`, default pass `sm_70`; `--gpu-architecture` overrides it
 (regex results supplied as a table), an undeclared architecture is reported and yields no configuration -/
-example : emulate exMap [] "nvcc" ["x.cu"] =
+example : emulate exMap {} "nvcc" ["x.cu"] =
     .ok ([⟨"sm_70", ["__NVCC__", "__CUDACC__", "__CUDA_ARCH__=700"], [], []⟩,
           ⟨"default", ["__NVCC__", "__CUDACC__"], [], []⟩], []) := by decide
 
-example : emulate exMap [(("--gpu-architecture", "sm_80,sm_60"), ["80", "60"])] "nvcc"
+example : emulate exMap { table := [(("--gpu-architecture", "sm_80,sm_60"), ["80", "60"])] } "nvcc"
       ["--gpu-architecture=sm_80,sm_60", "-fopenmp", "x.cu"] =
     .ok ([⟨"sm_80", ["__NVCC__", "__CUDACC__", "__CUDA_ARCH__=800"], [], []⟩,
           ⟨"default", ["__NVCC__", "__CUDACC__", "_OPENMP"], [], []⟩], [.badPass "sm_60"]) := by decide
@@ -373,7 +374,7 @@ and adds a compiler; the extended `nvcc` keeps its rules and passes and gains th
 def userExt : List (String × Definition) :=
   [("nvcc", { options := some ["-DEXTRA"] }), ("mycc", { options := some ["-DMY"] })]
 example : (loadBuiltin exFiles []).2 = true ∧ userExt.all (·.2.valid) = true ∧ (userExt.map (·.1)).Nodup := by decide
-example : (emulate (loadCompilers exFiles (.defs userExt)).1 [] "nvcc" ["x.cu"]).toOption.map (fun r => r.1.map (·.defines)) =
+example : (emulate (loadCompilers exFiles (.defs userExt)).1 {} "nvcc" ["x.cu"]).toOption.map (fun r => r.1.map (·.defines)) =
     some [["__NVCC__", "__CUDACC__", "EXTRA", "__CUDA_ARCH__=700"], ["__NVCC__", "__CUDACC__", "EXTRA"]] := by decide
 
 /-- the recorded findings exist in the model exactly as in the code (witnesses replayed by the harness):
@@ -381,7 +382,7 @@ D31 — a `store_split` rule used through its second spelling keeps the default 
 def d31Rule : Rule :=
   { flags := ["-ftargets", "--targets"], action := "store_split", dest := some "passes", sep := some ",", default := some (DefaultV.list ["p1"]) }
 def d31 : Compiler := fromToml { parser := some [d31Rule], passes := some [{ name := "p1" }, { name := "p2" }] }
-example : (parseArgs d31 [] ["--targets=p2"]).toOption.map (fun r => r.1.map (·.passName)) = some ["p2", "default"] := by decide
-example : (parseArgs d31 [] ["-ftargets=p2"]).toOption.map (fun r => r.1.map (·.passName)) = some ["p2", "default"] := by decide
+example : (parseArgs d31 {} ["--targets=p2"]).toOption.map (fun r => r.1.map (·.passName)) = some ["p2", "default"] := by decide
+example : (parseArgs d31 {} ["-ftargets=p2"]).toOption.map (fun r => r.1.map (·.passName)) = some ["p2", "default"] := by decide
 
 end CbiVerif.C12
